@@ -142,7 +142,9 @@ fn batch(tier: &str) -> i32 {
             let (zi, ji) = flat[(i / BATTERY) as usize];
             let t = &zones::tables()[zi as usize];
             let mut rng = Rng::derive(seed, SWEEP_TAG, i);
-            gen::scenario_around(&mut rng, t.tz, t.jumps[ji as usize])
+            let mut sc = gen::scenario_around(&mut rng, t.tz, t.jumps[ji as usize]);
+            gen::decorate(&mut rng, &mut sc);
+            sc
         };
         let sweep = simcore::par_batch_watched(
             total,
